@@ -7,12 +7,20 @@ META = {
              "'nearest preceding line with smaller indentation' wording are covered by the bounded layer only (exhaustive to 5/6 lines).",
         note="trusted: Python semantics assumptions A1,A7,A8,A9,A10; z3/cvc5; the opaque str.strip; parse_to_tree cursor loop bounded only",
     ),
+    "C18": dict(
+        technique="run-time contracts evaluated exhaustively over the finite configuration space (bounded stand-in; no deductive obligations: Mako rendering, importlib and regex compilation are outside the VC subset)",
+        text="exploration, exhaustive over the finite space: for every devdb sequence (model string synthesised per regex chain) x software-version "
+             "shapes x every vendor's canonical hardware: true sequences prefix-closed, vendor = unique most specific one under 28 registration "
+             "orders, get_rulebook renders/compiles/resolves every %logic function, two fresh providers give structurally equal rulebooks. "
+             "Registry.match and find_true_sequences are not under a discharged contract yet.",
+        note="bounded stand-in only; synthesised model strings are one per sequence; known finding: ambiguous short-name alias SN",
+    ),
 }
 _PENDING = "check not built yet in this round (planned in DESIGN.md section 5); no claim is made"
 NOT_APPLICABLE = {
     "C12": "schedules / fault sequences of an OS process pool (multiprocessing queues, worker exit codes): no contract on a call or a data structure expresses it and no verifier here models multiprocessing; a proof would be about a hand-written model, which is a different family (DESIGN.md section 5, C12)",
 }
-for _p in ["C01", "C02", "C03", "C04", "C06", "C07", "C08", "C09", "C10", "C11", "C13", "C14", "C15", "C16", "C17", "C18", "C19", "C20"]:
+for _p in ["C01", "C02", "C03", "C04", "C06", "C07", "C08", "C09", "C10", "C11", "C13", "C14", "C15", "C16", "C17", "C19", "C20"]:
     NOT_APPLICABLE.setdefault(_p, _PENDING)
 NOTES = ("Exit codes of every check: 0 held, 1 VIOLATION, 2 undecided, 3 checker broken. Level 'proof' is claimed only where every "
          "clause is covered by discharged obligations; everything bounded is labelled and never added to obligations/discharged.")
